@@ -353,7 +353,9 @@ def main_check(prop, tier, seed, replay=None):
             found = None
             if hasattr(mod, "search"):
                 try:
-                    found = mod.search(ctx, [d for d in disagreements if not isinstance(d, dict)], proof_info)
+                    found = mod.search(ctx, [d for d in disagreements
+                                             if not (isinstance(d, dict) and d.get("kind") in ("correspondence-exception", "probe-exception"))],
+                                       proof_info)
                 except Exception as e:
                     traceback.print_exc()
                     ctx.cov.notes.append("failing-input search raised %r" % (e,))
